@@ -157,7 +157,30 @@ def m1(ck: Check) -> None:
     probs = []
     loops = [n for n in own_walk(dfm.f.node) if isinstance(n, ast.For)]
     rets = [n for n in own_walk(dfm.f.node) if isinstance(n, ast.Return)]
-    if len(loops) != 1 or len(rets) != 1 or not isinstance(rets[0].value, ast.Name):
+    comps = [n for n in own_walk(dfm.f.node) if isinstance(n, (ast.ListComp, ast.GeneratorExp, ast.SetComp))]
+    if not loops and len(rets) == 1 and len(comps) == 1:
+        # max(...) over a comprehension of the depths of all nodes
+        c0 = comps[0]
+        g0 = c0.generators[0]
+        it = text(g0.iter)
+        if len(c0.generators) != 1 or g0.ifs:
+            probs.append("depth() skips some nodes")
+        if not (".dag.nodes" in it or "node_ids()" in it or "range(len(self))" in it):
+            probs.append(f"depth() ranges over `{it}`, not over all nodes")
+        if "['depth']" not in text(c0.elt) or not isinstance(g0.target, ast.Name) or g0.target.id not in text(c0.elt):
+            probs.append("depth() does not collect the depth of each node")
+        rv = rets[0].value
+        uses = set()
+        for n in ast.walk(rv):
+            if n is c0:
+                uses.add("comp")
+            if isinstance(n, ast.Name):
+                d = dfm.single_def(n.id, dfm.cfgn(rets[0]))
+                if d and d[1] is c0:
+                    uses.add("comp")
+        if not (isinstance(rv, ast.Call) and callee_name(rv) == "max" and "comp" in uses):
+            probs.append("depth() does not return the maximum of the collected depths")
+    elif len(loops) != 1 or len(rets) != 1 or not isinstance(rets[0].value, ast.Name):
         probs.append("depth() is not a single fold over the nodes")
     else:
         acc = rets[0].value.id
@@ -198,7 +221,7 @@ def m2(ck: Check) -> None:
         ys = [n for n in own_walk(fm.f.node) if isinstance(n, ast.Yield)]
         if len(loops) != 1 or text(loops[0].iter) not in ("range(len(self))", "range(self.dag.number_of_nodes())"):
             probs.append("does not range over range(len(self))")
-        elif len(ys) != 1 or not (isinstance(ys[0].value, ast.Name) and ys[0].value.id == text(loops[0].target)):
+        elif len(ys) != 1 or fm.key(ys[0].value, fm.cfgn(ys[0])) != text(loops[0].target):
             probs.append("does not yield the loop index")
         else:
             yn = fm.cfgn(ys[0])
@@ -388,7 +411,35 @@ def m4(ck: Check) -> None:
     # edge inclusion for every expanded node
     probs = []
     inner = [n for n in ast.walk(lp) if isinstance(n, ast.For) and n is not lp]
-    if len(inner) != 1:
+    quant = None
+    if not inner:
+        # the same test written with any(...): `if any(other.find_node(space of s) not in other_successors for s in my successors)`
+        for r, rpc in edge_rets:
+            for b in fm.cfg.dominators(fm.cfgn(r)):
+                if b.kind == "branch" and b.test is not None and b.pol:
+                    for e in ast.walk(b.test):
+                        q = logic.quantifier(e)
+                        if q is not None and q[0] and isinstance(q[2], str):
+                            quant = (q, b, r)
+    if quant is not None:
+        (pos, it2, var2, cond2), b, r = quant
+        tn = fm.cfg.nodes[next(iter(fm.cfg.g.predecessors(b.id)))]
+        d = fm.single_def(it2.id, tn) if isinstance(it2, ast.Name) else None
+        srcx = d[1] if d else it2
+        if not (isinstance(srcx, ast.Call) and callee_name(srcx) == "node_successors" and text(srcx.func.value) == "self"
+                and text(srcx.args[0]) == i):
+            probs.append("the successor test does not range over self.node_successors(node)")
+        okc = isinstance(cond2, ast.Compare) and len(cond2.ops) == 1 and isinstance(cond2.ops[0], ast.NotIn) \
+            and isinstance(cond2.left, ast.Call) and callee_name(cond2.left) == "find_node" and text(cond2.left.func.value) == other \
+            and fm.key(logic._rename(cond2.left.args[0], var2, "_q"), tn) == "FIELD<self|_q|space>"
+        if not okc:
+            probs.append("a successor whose image is not a successor in the other diagram does not make the result False")
+        pc = fm.pc(tn)
+        exp = f"T:FIELD<self|{i}|expanded>"
+        extra = [a for a in logic.atoms(pc) if a[0] == "b" and a[1] != exp and not a[1].startswith("none:")]
+        if extra:
+            probs.append(f"edges are compared only under {logic.show(pc)}")
+    elif len(inner) != 1:
         probs.append("no loop over the successors of the node")
     else:
         il = inner[0]
@@ -424,10 +475,18 @@ def m4(ck: Check) -> None:
     fm2 = prog.fm(SD_MOD, "SuccessionDiagram.is_isomorphic")
     o2 = [p for p in fm2.f.params() if p != "self"][0]
     rets = [r for r in own_walk(fm2.f.node) if isinstance(r, ast.Return)]
-    ok = len(rets) == 1 and isinstance(rets[0].value, ast.BoolOp) and isinstance(rets[0].value.op, ast.And) and \
-        {text(v) for v in rets[0].value.values} == {f"self.is_subgraph({o2})", f"{o2}.is_subgraph(self)"}
+    # the returned value, over all paths, is the conjunction of both inclusions
+    fs = []
+    for r in rets:
+        rn = fm2.cfgn(r)
+        fs.append(logic.And(fm2.pc(rn), fm2.translator(rn).f(r.value) if r.value is not None else logic.FALSE))
+    want = logic.And(logic.B(f"T:self.is_subgraph({o2})"), logic.B(f"T:{o2}.is_subgraph(self)"))
+    try:
+        ok = bool(rets) and logic.equivalent(logic.Or(*fs), want)
+    except logic.TooBig:
+        ok = False
     ck.ob("M4", fm2, fm2.f.node, ok, "is_isomorphic = inclusion in both directions" if ok else
-          f"is_isomorphic is `{text(rets[0].value) if rets else '?'}`, not the conjunction of both inclusions", key="is_isomorphic")
+          f"is_isomorphic returns `{logic.show(logic.Or(*fs))[:120] if fs else '?'}`, not the conjunction of both inclusions", key="is_isomorphic")
 
 
 # ------------------------------------------------------------------------------------------ M5
@@ -457,6 +516,10 @@ def m5(ck: Check) -> None:
             else:
                 lp = loops[0]
                 it = lp.iter
+                if isinstance(it, ast.Name):
+                    vd = fm.value_defs(it.id, fm.cfg.loop_header[lp])
+                    if len(vd) == 1 and vd[0][1] is not None:
+                        it = vd[0][1]
                 src = it.args[0] if isinstance(it, ast.Call) and callee_name(it) in ("list", "sorted", "tuple") and it.args else it
                 var = text(lp.target)
                 if text(c.args[0]) != var:
